@@ -23,6 +23,7 @@ import (
 	"testing"
 	"time"
 
+	"github.com/gotid/god/api/httpx"
 	"pgregory.net/rapid"
 	"verif.local/kit"
 )
@@ -73,11 +74,15 @@ type c02Route struct {
 }
 
 type c02Case struct {
-	T  int        `json:"t"`  // Config.Timeout in ms, 0 = off
-	MC int        `json:"mc"` // Config.MaxConns, 0 = off
-	MB int        `json:"mb"` // Config.MaxBytes, 0 = off
-	V  bool       `json:"v,omitempty"`
-	NR bool       `json:"nr,omitempty"` // guards tier only: RecoverHandler is left out of the composition
+	T  int  `json:"t"`  // Config.Timeout in ms, 0 = off
+	MC int  `json:"mc"` // Config.MaxConns, 0 = off
+	MB int  `json:"mb"` // Config.MaxBytes, 0 = off
+	V  bool `json:"v,omitempty"`
+	NR bool `json:"nr,omitempty"` // guards tier only: RecoverHandler is left out of the composition
+	// EH: process-wide httpx configuration while the case runs (reset afterwards):
+	// 0 none, 1 httpx.SetErrorHandler(fn), 2 httpx.SetErrorHandlerCtx(fn); fn maps every
+	// error to 418 + {"c02":"business-error"}
+	EH int        `json:"eh,omitempty"`
 	R  []c02Route `json:"r"`
 	G  [][]c02Req `json:"g"` // groups, 11 s apart
 }
@@ -343,6 +348,25 @@ func (b c02BlockedBody) Read([]byte) (int, error) {
 	return 0, io.EOF
 }
 
+const c02BusinessStatus = http.StatusTeapot
+
+// c02SetGlobals installs the case's process-wide httpx error handler (an application's
+// business-error mapper) and returns the function that restores the pristine state
+// (both setters accept nil). Cases run one after the other in a test binary.
+func c02SetGlobals(eh int) (reset func()) {
+	body := map[string]string{"c02": "business-error"}
+	switch eh {
+	case 1:
+		httpx.SetErrorHandler(func(error) (int, any) { return c02BusinessStatus, body })
+	case 2:
+		httpx.SetErrorHandlerCtx(func(context.Context, error) (int, any) { return c02BusinessStatus, body })
+	}
+	return func() {
+		httpx.SetErrorHandler(nil)
+		httpx.SetErrorHandlerCtx(nil)
+	}
+}
+
 type c02Obs struct {
 	rec      *c02Rec
 	done     bool
@@ -402,7 +426,7 @@ func c02Method(m string) string {
 
 // c02Valid re-checks the generator's preconditions (replay files are data).
 func c02Valid(c c02Case) bool {
-	if len(c.R) == 0 || len(c.R) > 3 || c.T < 0 || c.MC < 0 || c.MB < 0 {
+	if len(c.R) == 0 || len(c.R) > 3 || c.T < 0 || c.MC < 0 || c.MB < 0 || c.EH < 0 || c.EH > 2 {
 		return false
 	}
 	paths := map[string]bool{}
@@ -496,6 +520,7 @@ func c02Run(t *testing.T, c c02Case, build c02Builder, leakExpected bool) (v kit
 	var maxMu sync.Mutex
 	var buildErr error
 
+	defer c02SetGlobals(c.EH)()
 	res := kit.Bubble(t, func() {
 		progs := make([]c02Req, len(flat))
 		for _, fl := range flat {
@@ -610,7 +635,11 @@ func c02Run(t *testing.T, c c02Case, build c02Builder, leakExpected bool) (v kit
 	} else if res.Hang || res.Panic != "" || (res.Leak && !leakExpected) {
 		fail = "bubble: " + res.String()
 	} else {
-		fail = c02Judge(c, flat, obs, maxCur, cls)
+		known := ""
+		fail = c02Judge(c, flat, obs, maxCur, cls, &known)
+		if fail != "" && leakExpected { // full engine chain (with the log handlers) only
+			v.Known = known
+		}
 	}
 	v.Fail = fail
 	v.NonTrivial = cls["write-straddles-deadline"] || cls["panic"] || cls["latch-full-arrival"]
@@ -642,7 +671,20 @@ func c02Lower(m map[string]string) map[string]string {
 	return o
 }
 
-func c02Judge(c c02Case, flat []c02Flat, obs []*c02Obs, maxCur []int32, cls map[string]bool) string {
+// Finding log-dump-races-with-body-read (FINDINGS.md): when the deadline fires while
+// the guarded inner chain is still reading the request body (here: GunzipHandler reading
+// the gzip header of a request whose client cancelled at the arrival instant) and the
+// log handler dumps the request (always under Config.Verbose), both use the unsynchronised
+// buffer of iox.DupReadCloser. The outcome of such a request is memory-corruption
+// dependent; a failure ON SUCH A REQUEST is attributed to the finding.
+const c02KnownLogDumpRace = "log-dump-races-with-body-read"
+
+func c02Judge(c c02Case, flat []c02Flat, obs []*c02Obs, maxCur []int32, cls map[string]bool, known *string) string {
+	defer func() {
+		if *known != "" {
+			cls["known-trigger:gzip-body+cancel-at-arrival+verbose-failed"] = true
+		}
+	}()
 	type admitted struct{ leaveUS int64 }
 	latch := make([][]admitted, len(c.R))
 	behaved := make([]bool, len(c.R))
@@ -653,8 +695,14 @@ func c02Judge(c c02Case, flat []c02Flat, obs []*c02Obs, maxCur []int32, cls map[
 		cls["two-groups"] = true
 	}
 	c.optClasses(cls)
+	cls[[]string{"httpx-globals:none", "httpx-globals:SetErrorHandler", "httpx-globals:SetErrorHandlerCtx"}[c.EH]] = true
 	for _, fl := range flat { // ascending arrival instant
 		o, q, p := obs[fl.id], fl.q, fl.plan
+		*known = ""
+		if c.V && q.GZ && p.d == 0 {
+			cls["gzip-body+cancel-at-arrival+verbose"] = true
+			*known = c02KnownLogDumpRace // stands only if this iteration returns a failure
+		}
 		who := fmt.Sprintf("request %d (route %d, arrival %dµs, plan d=%d f=%d panics=%v)", fl.id, q.Rt, fl.arrUS, p.d, p.f, p.panics)
 		t := c.timeoutTicks(q.Rt)
 		if t == 0 {
@@ -738,6 +786,7 @@ func c02Judge(c c02Case, flat []c02Flat, obs []*c02Obs, maxCur []int32, cls map[
 				for _, k := range p.kinds {
 					okStatus = okStatus || o.rec.code == k
 				}
+				okStatus = okStatus || (c.EH == 2 && o.rec.code == c02BusinessStatus) // see checkTimeout
 			}
 			if !okStatus {
 				return fmt.Sprintf("%s: Content-Length %d > MaxBytes %d: want 413, got %s", who, q.CL, c.maxBytes(q.Rt), got)
@@ -824,6 +873,14 @@ func c02Judge(c c02Case, flat []c02Flat, obs []*c02Obs, maxCur []int32, cls map[
 					ok = true
 				}
 			}
+			if !ok && c.EH == 2 && o.rec.code == c02BusinessStatus {
+				// With a handler installed through httpx.SetErrorHandlerCtx the unchanged timeout
+				// guard hands its error to that handler (httpx.ErrorCtx prefers it over the guard's
+				// own writer), so the status is the application's: UNSPECIFIED for the statement.
+				// Everything else about the timeout response is still asserted.
+				cls["timeout-response-by-ctx-error-handler"] = true
+				ok = true
+			}
 			if !ok {
 				return fmt.Sprintf("status %d, want one of %v", o.rec.code, p.kinds)
 			}
@@ -908,6 +965,7 @@ func c02Judge(c c02Case, flat []c02Flat, obs []*c02Obs, maxCur []int32, cls map[
 			}
 		}
 	}
+	*known = ""
 	if c.MC > 0 {
 		for rt := range c.R {
 			if behaved[rt] && int(maxCur[rt]) > c.MC {
@@ -930,6 +988,7 @@ func c02Gen(rt *rapid.T) c02Case { return c02GenFor(false)(rt) }
 func c02GenFor(allowNR bool) func(rt *rapid.T) c02Case {
 	return func(rt *rapid.T) c02Case {
 		c := c02GenCase(rt)
+		c.EH = rapid.SampledFrom([]int{0, 0, 0, 1, 1, 2}).Draw(rt, "errhandler")
 		if allowNR {
 			c.NR = rapid.IntRange(0, 5).Draw(rt, "norecover") == 0
 		}
